@@ -24,7 +24,7 @@ TNAMES = [None, "100% done", "My%20Album", "%s", "{name}", "a[1]*", "name.torren
 DAMAGE = ["-", "last:flip", "first:trunc", "first:missing", "last:missing", "last:trunc", "first:flip"]
 MDIMS = {
     "version": [1, 2, 3],
-    "shape": ["single", "flat2", "nested3", "selfname", "selfdir", "order2", "ungrouped3", "samedir2"] +
+    "shape": ["single", "flat2", "nested3", "selfname", "selfdir", "order2", "ungrouped3", "samedir2", "nested4", "samename2"] +
              sorted(k for k in SHAPES if "~" in k and k.split("~")[0] in ("flat2", "nested3")),
     "cpath": ["root", "parent"],
     "tname": TNAMES,
@@ -83,7 +83,7 @@ def v1_order(shape):
     return sorted(SHAPES[shape])
 
 
-def ref_meta(E, version, shape, sizes, P, trailing_pad=False, v2_single_length=False):
+def ref_meta(E, version, shape, sizes, P, trailing_pad=False, v2_single_length=False, aligned=False):
     """Decoded metafile written from the specifications (independent of torrentfile)."""
     rels = SHAPES[shape]
     single = shape == "single"
@@ -101,7 +101,7 @@ def ref_meta(E, version, shape, sizes, P, trailing_pad=False, v2_single_length=F
                 s = sizes[rel]
                 files.append({"length": s, "path": rel.split("/")[1:]})
                 stream.extend(expected_content(shape, rel, sizes))
-                if version == 3 and (i + 1 < len(order) or trailing_pad) and tb(s % P != 0):
+                if (version == 3 or aligned) and (i + 1 < len(order) or trailing_pad) and tb(s % P != 0):
                     pad = P - s % P
                     files.append({"attr": "p", "length": pad, "path": [".pad", str(pad)]})
                     stream.extend(ABuf(pad))
@@ -182,6 +182,10 @@ def piece_table(version, shape, sizes, P, disk_ext, meta):
         dsk = ABuf.of([])
         if "files" in info:
             for f in info["files"]:
+                if f.get("attr") == "p":
+                    exp.extend(ABuf(f["length"]))       # padding: zeros by definition, never on disk
+                    dsk.extend(ABuf(f["length"]))
+                    continue
                 rel = "/".join(["name"] + list(f["path"]))
                 exp.extend(expected_content(shape, rel, sizes))
                 dsk.extend(disk_ext[rel])
@@ -203,6 +207,29 @@ def piece_table(version, shape, sizes, P, disk_ext, meta):
             table.append((dsk[pos:pos + n] == sl, n))
             pos = pos + n
     return table
+
+
+def _payload_in_verifying_pieces(meta, sizes, P, table):
+    """Bytes of payload files (not of padding entries) that lie in verifying pieces of the v1 stream."""
+    spans = []
+    pos = 0
+    for f in meta["info"]["files"]:
+        n = f["length"]
+        if f.get("attr") != "p":
+            spans.append((pos, pos + n))
+        pos = pos + n
+    total = 0
+    start = 0
+    for ok, n in table:
+        end = start + n
+        if ok:
+            for a, b in spans:
+                lo = a if tb(a >= start) else start
+                hi = b if tb(b <= end) else end
+                if tb(hi > lo):
+                    total = total + (hi - lo)
+        start = end
+    return total
 
 
 def run_checker(E, w, meta_obj, content_path, tag):
@@ -255,7 +282,7 @@ def check_percentage(E, result, ref_matched, total, consumed, oblig):
 
 
 def job_recheck(E, prop, version, shape, P, K, dmg, source="ref", cpath="root", trailing_pad=False,
-                v2_single_length=True, tname=None, _mutants=None):
+                v2_single_length=True, tname=None, aligned=False, _mutants=None):
     rels = SHAPES[shape]
     fs = AFS(order="reversed")
     sizes = {}
@@ -269,7 +296,7 @@ def job_recheck(E, prop, version, shape, P, K, dmg, source="ref", cpath="root", 
     w = World(fs, mutants=_mutants)
     if source == "ref":
         disk_ext, damaged = apply_damage(E, fs, shape, sizes, dmg)
-        meta = ref_meta(E, version, shape, sizes, P, trailing_pad, v2_single_length)
+        meta = ref_meta(E, version, shape, sizes, P, trailing_pad, v2_single_length, aligned)
     else:
         # metafile produced by torrentfile's own creator on the intact tree (same path), then damage
         fs0 = AFS(order="reversed")
@@ -278,7 +305,7 @@ def job_recheck(E, prop, version, shape, P, K, dmg, source="ref", cpath="root", 
         w0 = World(fs0, mutants=_mutants)
         which = {1: "1", 2: "2a", 3: "3a"}[version] if source == "own" else {1: "1", 2: "2c", 3: "3c"}[version]
         try:
-            t = cr.create(w0, which, path="/data/name", piece_length=P, progress=0)
+            t = cr.create(w0, which, path="/data/name", piece_length=P, progress=0, **({"align": True} if aligned and version == 1 else {}))
         except Exception as ex:  # noqa: BLE001
             E.fail(prop + ".create.no-exception", "%s: %s" % (type(ex).__name__, ex))
             return
@@ -321,7 +348,17 @@ def job_recheck(E, prop, version, shape, P, K, dmg, source="ref", cpath="root", 
             if ok:
                 ref_matched = ref_matched + n
         # (1) the reported number equals the reference share
-        check_percentage(E, result, ref_matched, total, consumed, "C16.percentage")
+        pads = [f["length"] for f in meta["info"].get("files", []) if isinstance(f, dict) and f.get("attr") == "p"] if version == 1 else []
+        if pads and isinstance(result, Rat):
+            # a piece-aligned v1 metafile: "payload bytes" may or may not be read as including the padding entries
+            stream_total = total
+            for pl in pads:
+                stream_total = stream_total + pl
+            pay_matched = _payload_in_verifying_pieces(meta, sizes, P, table)
+            E.check(disj(result == Rat(100 * ref_matched, stream_total), result == Rat(100 * pay_matched, total)), "C16.percentage",
+                    "reported %r; reference %r/%r (padding counted) or %r/%r (payload only)" % (result, ref_matched, stream_total, pay_matched, total))
+        else:
+            check_percentage(E, result, ref_matched, total, consumed, "C16.percentage")
         # (2) piece by piece (only where the checker's sequence lines up with the reference table)
         if len(yields) == len(table):
             for k, (ok, n) in enumerate(table):
@@ -367,7 +404,8 @@ def conc_world(params, model, workdir, seed):
         else:
             order = cr.tree_order(rels)
         files = [(r.split("/")[1:] if not single else ["name"], data[r]) for r in order]
-        meta = refconc.build_meta(files, P, version, single=single, trailing_pad=params.get("trailing_pad", False))
+        meta = refconc.build_meta(files, P, version, single=single, trailing_pad=params.get("trailing_pad", False),
+                                  aligned=params.get("aligned", False))
         if single and version == 2 and params.get("v2_single_length", True):
             meta["info"]["length"] = len(data[rels[0]])
         meta["announce"] = "http://t/a"
@@ -379,7 +417,8 @@ def conc_world(params, model, workdir, seed):
         for r in rels:
             refconc.write_file(os.path.join(idir, r), data[r])
         which = {1: "1", 2: "2a", 3: "3a"}[version] if source == "own" else {1: "1", 2: "2c", 3: "3c"}[version]
-        t = cr.real_create(which, path=os.path.join(idir, "name"), piece_length=P, outfile=mpath)
+        t = cr.real_create(which, path=os.path.join(idir, "name"), piece_length=P, outfile=mpath,
+                           **({"align": True} if params.get("aligned") and version == 1 else {}))
         import io
         import contextlib
         with contextlib.redirect_stdout(io.StringIO()):
@@ -464,6 +503,22 @@ def conc_recheck(prop, params, model, workdir, seed):
         else:
             order = v1_order(params["shape"])
         table = conc_table(params["version"], params["shape"], params["P"], data, disk, order)
+        refs_ok = None
+        if params["version"] == 1 and any(isinstance(f, dict) and "attr" in f for f in info.get("files", [])):
+            # piece-aligned v1: the stream contains the padding entries; either reading of "payload bytes" is accepted
+            P_ = params["P"]
+            exp, dsk, mask = bytearray(), bytearray(), bytearray()
+            for f in info["files"]:
+                if "attr" in f:
+                    exp += bytes(f["length"]); dsk += bytes(f["length"]); mask += bytes(f["length"])
+                else:
+                    r = "/".join(["name"] + list(f["path"]))
+                    d = disk[r] if disk[r] is not None else b""
+                    exp += data[r]; dsk += d + bytes(len(data[r]) - len(d)); mask += b"\x01" * len(data[r])
+            table = [(exp[i:i + P_] == dsk[i:i + P_], len(exp[i:i + P_])) for i in range(0, len(exp), P_)]
+            m1 = sum(n for ok, n in table if ok)
+            m2 = sum(sum(mask[i * P_:(i + 1) * P_]) for i, (ok, n) in enumerate(table) if ok)
+            refs_ok = (m1 / len(exp) * 100, m2 / total * 100)
         if len(table) != len(yields):
             bad.append("C16.piece-count (%d vs %d)" % (len(yields), len(table)))
         for k, ((ok, n), (gok, gn)) in enumerate(zip(table, yields)):
@@ -472,7 +527,10 @@ def conc_recheck(prop, params, model, workdir, seed):
             if n != gn:
                 bad.append("C16.piece-size[%d]" % k)
         ref = sum(n for ok, n in table if ok) / total * 100
-        if result != ref:
+        if refs_ok is not None:
+            if not any(abs(result - r) < 1e-9 for r in refs_ok):
+                bad.append("C16.percentage (%r vs %r)" % (result, refs_ok))
+        elif result != ref:
             bad.append("C16.percentage (%r vs %r)" % (result, ref))
     return bad
 
